@@ -107,6 +107,7 @@ class Rig:
         stress, chemical potential, particle number and volume are NOT set again)"""
         self.rng.scripts.clear()
         self.rng.script("random", float(u))
+        self.rng.script("uniform", float(u))  # (whichever way the criteria asks its generator for the uniform number)
         E0 = 1.2345
         if ens == "canonical":
             mc = self.sims["canonical"]
@@ -152,7 +153,7 @@ class Rig:
         crit = self.criteria(mc)
         self.rng.log.clear()
         v = crit.evaluate(ctx)
-        used = [l for l in self.rng.log if l[0] == "random"]
+        used = [l for l in self.rng.log if l[0] in ("random", "uniform")]
         self.rng.log.clear()
         return bool(v), crit, len(used)
 
@@ -240,6 +241,7 @@ class _Between:
         lu = 0.5 * (lo + hi)
         context.rng.scripts.clear()
         context.rng.script("random", math.exp(lu))
+        context.rng.script("uniform", math.exp(lu))
         b["want"] = lu < min(0.0, la_true)
         b["got"] = bool(self.inner.evaluate(context))
         return b["got"]
